@@ -375,6 +375,45 @@ fn local(m: &Model, ctx: &mut Ctx, consts: &dyn Fn(&str) -> Option<Val>) {
             ctx.violate("C10.local", "validate-fold", &f.file, f.line, "validate() must keep a valid definition, turn an invalid one into exactly one warning, and continue");
         }
     }
+    // internal_compile: the warnings of every generated module and of the validator reach the result unconditionally
+    if let Some(f) = anchor_fn(m, ctx, "C10.local", None, "internal_compile", None) {
+        ctx.oblige("C10.local", "module-warnings-unconditional", true);
+        // the `for (_, module) in modules { .. }` loop
+        let mut ok_loop = false;
+        let mut ok_validator = false;
+        for st in &f.block.stmts {
+            if let syn::Stmt::Expr(syn::Expr::ForLoop(fl), _) = st {
+                if tok(&fl.body).contains("generate_module(") {
+                    ok_loop = fl.body.stmts.iter().any(|s| tok(s) == "warnings.append(&mut generated_module.warnings);");
+                }
+            }
+            if tok(st) == "warnings.append(&mut validator_errors);" {
+                ok_validator = true;
+            }
+        }
+        if !ok_loop {
+            ctx.violate("C10.local", "module-warnings-unconditional", &f.file, f.line,
+                "internal_compile must append the warnings of every generated module unconditionally (a direct statement of the per-module loop): warnings of a module that produced no output would otherwise vanish");
+        }
+        ctx.oblige("C10.local", "validator-warnings-unconditional", true);
+        if !ok_validator {
+            ctx.violate("C10.local", "validator-warnings-unconditional", &f.file, f.line, "internal_compile must append the validator's warnings unconditionally");
+        }
+        ctx.oblige("C10.local", "result-carries-warnings", true);
+        if !tok(&f.block).contains("Ok(CompileResult{generated:generated_modules.join(\"\\n\"),warnings,})") {
+            ctx.violate("C10.local", "result-carries-warnings", &f.file, f.line, "internal_compile must return the collected warnings with the generated text");
+        }
+    }
+    // a backend that generated nothing for a module still returns that module's warnings
+    for f in m.fns.iter().filter(|f| f.name == "generate_module" && f.module.starts_with("generator::")) {
+        ctx.oblige("C10.local", &format!("{}:warnings-returned", f.key), true);
+        let b = tok(&f.block);
+        let n_results = b.matches("GeneratedModule{").count();
+        let with_warnings = b.matches("warnings,}").count() + b.matches("warnings}").count();
+        if n_results != with_warnings {
+            ctx.violate("C10.local", &format!("{}:warnings-returned", f.key), &f.file, f.line, "every GeneratedModule built in generate_module must carry the collected warnings");
+        }
+    }
     // linker: every Err in link() becomes a warning that names the definition
     if let Some(f) = anchor_fn(m, ctx, "C10.local", Some("Validator"), "link", None) {
         let b = tok(&f.block);
